@@ -183,8 +183,7 @@ func (matrix *SparseReal64Matrix) SLICE(rfrom, rto, cfrom, cto int) *SparseReal6
   return &m
 }
 func (matrix *SparseReal64Matrix) AsSparseReal64Vector() *SparseReal64Vector {
-  if matrix.cols < matrix.colMax - matrix.colOffset ||
-    (matrix.rows < matrix.rowMax - matrix.rowOffset) {
+  if matrix.rows != matrix.rowMax || matrix.cols != matrix.colMax {
     n, m := matrix.Dims()
     v := nilSparseReal64Vector(n*m)
     for it := matrix.ConstIterator(); it.Ok(); it.Next() {
